@@ -42,7 +42,65 @@ LEDGER_TB = ["Ledger/*.v is a hand transcription of the keeper handlers, Validat
 LEDGER_AS = ["every credit type has precision 6 (enforced by CreditType.Validate for genesis and AddCreditType)",
              "addresses are known accounts (users, gov, module accounts); timestamps within protobuf range; infinite gas meter"]
 
+EXTRA_AS = {
+    "C01": ["genesis satisfies Inv_run = Inv_core /\\ Inv_bound /\\ Inv_qty (the empty state does)"],
+    "C02": ["genesis satisfies Inv_run and the ghost ledger agrees with it (ghost_ok)"],
+    "C03": ["signer is not the ecocredit / basket module account; seller of a filled order is not the fee pool (model allows any address as signer)"],
+    "C05": ["genesis satisfies Inv_all_basket; no governance message sets a creation fee in a basket ('eco.') denom (gov_fees_ok) - without it the property is REFUTED: known finding basket-fee-burns-basket-tokens"],
+    "C06": ["genesis satisfies Inv_all (adds Inv_ids and Inv_orders)"],
+    "C07": ["coin values are given per operation (34-digit Mul, exact Add/Sub, truncation); beyond 34 significant digits the exact-value bounds do not hold: known finding *:beyond-34-digits"],
+    "C12": ["genesis satisfies Inv_run (Inv_bound: every tradable supply representable by apd)"],
+}
+
 PROPS.update({
+    "C01": {
+        "prop_file": "Properties/C01.v",
+        "coq_targets": ["Properties/C01.vo", "Cases/LedgerRun.vo", "Ledger/Tie.vo"],
+        "families": [LEDGER],
+        "trusted_base": LEDGER_TB, "assumptions": LEDGER_AS + EXTRA_AS.get("C01", []),
+    },
+    "C02": {
+        "prop_file": "Properties/C02.v",
+        "coq_targets": ["Properties/C02.vo", "Cases/LedgerRun.vo", "Ledger/Tie.vo"],
+        "families": [LEDGER],
+        "trusted_base": LEDGER_TB, "assumptions": LEDGER_AS + EXTRA_AS.get("C02", []),
+    },
+    "C03": {
+        "prop_file": "Properties/C03.v",
+        "coq_targets": ["Properties/C03.vo", "Cases/LedgerRun.vo", "Ledger/Tie.vo"],
+        "families": [LEDGER],
+        "trusted_base": LEDGER_TB, "assumptions": LEDGER_AS + EXTRA_AS.get("C03", []),
+    },
+    "C04": {
+        "prop_file": "Properties/C04.v",
+        "coq_targets": ["Properties/C04.vo", "Cases/LedgerRun.vo", "Ledger/Tie.vo"],
+        "families": [LEDGER],
+        "trusted_base": LEDGER_TB, "assumptions": LEDGER_AS + EXTRA_AS.get("C04", []),
+    },
+    "C05": {
+        "prop_file": "Properties/C05.v",
+        "coq_targets": ["Properties/C05.vo", "Cases/LedgerRun.vo", "Ledger/Tie.vo"],
+        "families": [LEDGER],
+        "trusted_base": LEDGER_TB, "assumptions": LEDGER_AS + EXTRA_AS.get("C05", []),
+    },
+    "C06": {
+        "prop_file": "Properties/C06.v",
+        "coq_targets": ["Properties/C06.vo", "Cases/LedgerRun.vo", "Ledger/Tie.vo"],
+        "families": [LEDGER],
+        "trusted_base": LEDGER_TB, "assumptions": LEDGER_AS + EXTRA_AS.get("C06", []),
+    },
+    "C07": {
+        "prop_file": "Properties/C07.v",
+        "coq_targets": ["Properties/C07.vo", "Cases/LedgerRun.vo", "Ledger/Tie.vo"],
+        "families": [LEDGER],
+        "trusted_base": LEDGER_TB, "assumptions": LEDGER_AS + EXTRA_AS.get("C07", []),
+    },
+    "C12": {
+        "prop_file": "Properties/C12.v",
+        "coq_targets": ["Properties/C12.vo", "Cases/LedgerRun.vo", "Ledger/Tie.vo"],
+        "families": [LEDGER],
+        "trusted_base": LEDGER_TB, "assumptions": LEDGER_AS + EXTRA_AS.get("C12", []),
+    },
     "C09": {
         "prop_file": "Properties/C09.v",
         "coq_targets": ["Properties/C09.vo", "Cases/GenesisRun.vo", "Cases/LedgerRun.vo", "Ledger/Tie.vo"],
